@@ -1,5 +1,5 @@
 """C14 - P2C balancer.  spec/P2C.tla (integer abstraction of picks, completions, score and latency
-estimate), spec/P2CTrace.tla (trace validation, one independent instance of P2C per picker of a
+estimate; both operations total, whatever the idle time between them), spec/P2CTrace.tla (trace validation, one independent instance of P2C per picker of a
 history) <- traces recorded on real pickers, published by balancers that the REGISTERED builder
 (balancer.Get(p2c.Name)) built for fake ClientConns, under the virtual clock by harness/c14/p2c_test.go."""
 import json, os, subprocess, time
@@ -24,7 +24,7 @@ DEAD_SHARE_MAX = {(3, 5): 0.68, (3, 1): 1.1, (5, 5): 0.45, (5, 1): 0.6, (8, 5): 
 MAX_GAP_MS = 5000         # longest time a connection stays unpicked under 1 kHz picks
 
 # order in which violated clauses name the disagreement
-CLAUSES = ["ready-set", "pick-not-ready", "done-not-ready", "succ-range", "succ-direction", "succ-progress", "fail-bound", "inflight",
+CLAUSES = ["ready-set", "pick-never-returns", "done-never-returns", "pick-panics", "done-panics", "unknown-fault", "pick-not-ready", "done-not-ready", "succ-range", "succ-direction", "succ-progress", "fail-bound", "inflight",
            "lag-range", "starved-2conn", "pick-effect", "done-effect", "time", "unknown-code"]
 
 META = dict(
@@ -46,7 +46,15 @@ META = dict(
          "names its picker and P2CTrace keeps one independent P2C state per picker, whose ready connections are those "
          "of its own build (a picker must hold exactly them; a pick returning another client's or a no-longer-held "
          "connection, or bookkeeping that moved to other records, is rejected). "
-         "A concurrent variant (8 goroutines) logs the quiescent end state, judged by the same invariants; long 1 kHz "
+         "Idle periods are a dimension of the histories: idle histories run rounds of (picks, completions, a gap of "
+         "30 s / 1 min / 61 s / 5 min without any pick while 0, 1 or 2 calls stay in flight, completions after the gap) and "
+         "then pick again - the first round enumerated over all round types, all pairs of rounds in the thorough tier; "
+         "P2C.tla is model-checked over such gaps too, with the totality of both operations (PickTotal, DoneTotal) as "
+         "invariants. Every Pick and every completion callback of every mode runs under a watchdog: a call still blocked "
+         "while every goroutine of the process has been blocked for seconds (or without progress for two minutes), or "
+         "one that panics, is logged as a fault event with the stacks and rejected by the trace spec (pick-never-returns, "
+         "done-never-returns, pick-panics, done-panics) - never a harness error. "
+         "A concurrent variant (8 goroutines, with two idle periods of more than a minute) logs the quiescent end state, judged by the same invariants; long 1 kHz "
          "runs with one dead backend measure its share and the longest unpicked interval.",
     note="Trusted: TLC, the Json module, the driver's projection (values saturated at 10^9), the virtual clock hook. The "
          "pair selection rand is re-seeded by the driver (in-package) for reproducibility. Each published picker is "
@@ -58,22 +66,28 @@ META = dict(
          "peers; its picks / those of the least picked healthy one, flagged at per-(n, latency) thresholds placed far above "
          "the values measured on the conforming code, recorded in evidence; no connection unpicked for > 5 s). The EWMA "
          "weight enters only as an upper bound on the remaining distance (table for decay 10 s); one unit of slack for "
-         "float truncation. Concurrent runs are validated at quiescence only (no per-step order). Measured and "
+         "float truncation. Concurrent runs are validated at quiescence only (no per-step order). 'Did not return' is "
+         "decided by the watchdog: all goroutines of the driver process blocked at three looks one second apart (the package "
+         "has no timers or I/O that could release a call), or no progress for 120 s of real time. Measured and "
          "reported, not judged: a recovered backend regains its score slowly under fast traffic because increments "
          "below 1 are truncated (evidence notes).",
     technique="TLA+ spec (P2C) + TLC trace validation (P2CTrace) of traces recorded on the real picker",
     design="4/C14")
 
 FINISH = dict(rule="every recorded trace (seeded random Pick/Done sequences for 1, 2, 3, 8 ready connections; "
+                   "idle-period histories (gaps of 30 s to 5 min with 0-2 calls in flight, then completions and picks); "
                    "histories with several pickers of several clients alive at once, all from the registered builder; "
                    "concurrent runs at quiescence) must be accepted by spec/P2CTrace.tla: each event is a step of "
-                   "spec/P2C.tla whose post-state equals the logged projection; driver statistics for >= 3 "
+                   "spec/P2C.tla whose post-state equals the logged projection, and every invoked Pick / completion "
+                   "callback returns; driver statistics for >= 3 "
                    "connections are flagged only beyond DESIGN.md section 5 margins")
 
 MCK = dict(Conns="1..2", MCReady="1..2", MCCodes='{"nil","Unavailable"}', MCLats="{1000,50000}", MCSteps="{0,600,1000}",
            RunLen=8, FailB=20000, MCSplit=False)
 FAILB = 20000             # unacceptable completions (>= 1 ms apart, none acceptable between) after which score <= 500
-INVS = ["TypeOK", "InflEq", "SuccRange", "LagRange", "OnlyReady", "UnhealthyBound", "Recover", "FailBound"]
+INVS = ["TypeOK", "InflEq", "SuccRange", "LagRange", "OnlyReady", "UnhealthyBound", "Recover", "FailBound", "PickTotal"]
+TOTAL = INVS + ["DoneTotal"]   # the small models also carry the totality of the completion
+IDLE_MIN = 10             # vacuity guard of the idle-period histories: each counted situation at least this often
 
 
 MCW = 2       # TLC workers per model-checking run; MCPOOL of them run next to the (single-worker) trace validation
@@ -84,7 +98,7 @@ def mc_one(ctx):
     B1 = "picks[1] <= 8 /\\ infl[1] <= 1"
     # (a) one connection, completions one second apart: deep enough for the 8-completion runs
     K = dict(MCK, Conns="1..1", MCReady="1..1", MCSteps="{1000}", MCLats="{1000}")
-    cfg = core.render_cfg(spec="Spec", constants=K, invariants=INVS, properties=["NoStarve2"], constraints=["Bound"], view="core")
+    cfg = core.render_cfg(spec="Spec", constants=K, invariants=TOTAL, properties=["NoStarve2"], constraints=["Bound"], view="core")
     ctx.tlc("P2C", cfg, constants=K, defs=dict(Bound=B1), name="P2C-mc1", workers=MCW, timeout=900, heap="2g")
     # the runs are really reached (vacuity guard for UnhealthyBound / Recover)
     for inv, nm in (("\\A c \\in Conns : badrun[c] < RunLen", "bad"), ("\\A c \\in Conns : goodrun[c] < RunLen", "good")):
@@ -96,13 +110,14 @@ def mc_one(ctx):
     # (a') closely spaced failing completions: the fail-bound clause with a small bound, reached
     K4 = dict(K, MCSteps="{0,1}", MCCodes='{"nil","Unavailable"}', FailB=3)
     B4 = "picks[1] <= 5 /\\ infl[1] <= 2"
-    cfg = core.render_cfg(spec="Spec", constants=K4, invariants=INVS, constraints=["Bound"], view="core")
+    cfg = core.render_cfg(spec="Spec", constants=K4, invariants=TOTAL, constraints=["Bound"], view="core")
     ctx.tlc("P2C", cfg, constants=K4, defs=dict(Bound=B4), name="P2C-mc4", workers=MCW, timeout=900, heap="2g")
     cfg2 = core.render_cfg(spec="Spec", constants=K4, invariants=["NotReached"], constraints=["Bound"], view="core")
     r2 = ctx.tlc("P2C", cfg2, constants=K4, defs=dict(Bound=B4, NotReached="\\A c \\in Conns : failrun[c] < FailB"),
                  name="P2C-reach-fail", workers=1, timeout=600, allow_violation=True, heap="2g")
     if r2.violated != "NotReached":
         raise core.Infra("vacuous model: FailB failing completions are not reachable within the bound")
+    mc_idle(ctx)
 
 
 def mc_split(ctx):
@@ -110,6 +125,20 @@ def mc_split(ctx):
     K5 = dict(MCK, Conns="1..1", MCReady="1..1", MCSteps="{0,1000}", MCLats="{1000,50000}", MCSplit=True)
     cfg = core.render_cfg(spec="Spec", constants=K5, invariants=INVS, constraints=["Bound"], view="core")
     ctx.tlc("P2C", cfg, constants=K5, defs=dict(Bound="picks[1] <= 3 /\\ now <= 3000"), name="P2C-mc5", workers=MCW,
+            timeout=900, heap="2g")
+
+
+def mc_idle(ctx):
+    # (d) idle periods: 30 s, 61 s and 5 min between operations, with 0, 1 or 2 calls in flight across them; every
+    # invariant and the totality of both operations (a pick always has a connection to return, a completion a step
+    # to take) hold whatever the spacing
+    K = dict(MCK, MCSteps="{0,61000}", MCLats="{1000}")
+    cfg = core.render_cfg(spec="Spec", constants=K, invariants=TOTAL, properties=["NoStarve2"], constraints=["Bound"], view="core")
+    ctx.tlc("P2C", cfg, constants=K, defs=dict(Bound="picks[1] + picks[2] <= 2"), name="P2C-mc6", workers=MCW,
+            timeout=900, heap="2g")
+    K = dict(K, Conns="1..1", MCReady="1..1", MCSteps="{0,61000,300000}")
+    cfg = core.render_cfg(spec="Spec", constants=K, invariants=TOTAL, constraints=["Bound"], view="core")
+    ctx.tlc("P2C", cfg, constants=K, defs=dict(Bound="picks[1] <= 3 /\\ infl[1] <= 2"), name="P2C-mc7", workers=MCW,
             timeout=900, heap="2g")
 
 
@@ -121,7 +150,7 @@ def mc_two(ctx):
             name="P2C-mc2", workers=MCW, timeout=900, heap="2g")
     # (c) a connection of the universe that is not ready is never touched; two latency classes
     K = dict(MCK, Conns="1..3", MCSteps="{0,1000}")
-    cfg = core.render_cfg(spec="Spec", constants=K, invariants=INVS, properties=["NoStarve2"], constraints=["Bound"], view="core")
+    cfg = core.render_cfg(spec="Spec", constants=K, invariants=TOTAL, properties=["NoStarve2"], constraints=["Bound"], view="core")
     ctx.tlc("P2C", cfg, constants=K, defs=dict(Bound="picks[1] + picks[2] <= 2 /\\ now <= 2000"),
             name="P2C-mc3", workers=MCW, timeout=900, heap="2g")
 
@@ -171,8 +200,19 @@ def validate(ctx, trace_path, name, mode, extra_env):
         head = json.loads(lines[start])
         ev = json.loads(lines[idx])
         why = sorted(rj["why"], key=lambda w: CLAUSES.index(w) if w in CLAUSES else 99)
-        msg = "trace %s (n=%s, %s): event #%d %s is not a step of P2C.tla: violates %s" % (
-            head.get("id"), head.get("n"), mode, idx - start, json.dumps(ev, sort_keys=True), why)
+        if ev.get("ev") == "fault":
+            what = "Pick" if ev.get("op") == "pick" else "the completion callback (Done) of a call of connection %s" % ev.get("c")
+            msg = ("trace %s (n=%s, %s): event #%d: %s on picker %s %s at t=%s ms, %s ms after the picker's last pick, with %s "
+                   "call(s) in flight - P2C.tla: every operation returns (violates %s); %s" % (
+                       head.get("id"), head.get("n"), mode, idx - start, what, ev.get("p", 0),
+                       "panicked" if ev.get("kind") == "panics" else "did not return", ev.get("t"),
+                       ev.get("since_last_pick_ms"), ev.get("calls_in_flight"), why, ev.get("note", "")))
+            if head.get("profile") and isinstance(head.get("profile"), dict):
+                msg += "\nhistory plan (rounds of [completions before the gap, calls in flight across it, gap ms, completions after it]): %s" % (
+                    head["profile"].get("idle"),)
+        else:
+            msg = "trace %s (n=%s, %s): event #%d %s is not a step of P2C.tla: violates %s" % (
+                head.get("id"), head.get("n"), mode, idx - start, json.dumps(ev, sort_keys=True), why)
         pid = ev.get("p", 0)
         before = [json.loads(x) for x in lines[max(start + 1, idx - 4000):idx]]
         mine = [x for x in before if x.get("p", 0) == pid]
@@ -229,6 +269,58 @@ def multi_guard(ctx, trace_path):
                         "dones_on_superseded") if cnt[k] < 20]
 
 
+def idle_guard(ctx, trace_path):
+    """What the idle-period histories really exercised (counted on the recorded trace): operations arriving a minute
+    or more after the picker's last pick, by the number of calls in flight; the guard is evaluated by run() only when
+    no disagreement was found."""
+    cnt = {"histories": 0, "gap_30s": 0, "gap_1min": 0, "gap_5min": 0, "quiet_done_then_pick": 0}
+    for k in (0, 1, 2):
+        cnt["pick_after_1min_inflight_%d" % k] = 0
+    for k in (0, 1):
+        cnt["done_after_1min_inflight_%d" % k] = 0      # calls still in flight after this completion
+    cnt["done_after_1min_no_pick_since_previous_done"] = 0
+    last_pick = prev_t = None
+    infl = 0
+    done_since_pick = quiet = False
+    for line in open(trace_path):
+        e = json.loads(line)
+        if e["ev"] == "reset":
+            cnt["histories"] += 1
+            last_pick = prev_t = None
+            infl = 0
+            done_since_pick = quiet = False
+            continue
+        if e["ev"] not in ("pick", "done"):
+            continue
+        t = e["t"]
+        if prev_t is not None:
+            g = t - prev_t
+            for nm, lo in (("gap_5min", 300000), ("gap_1min", 60000), ("gap_30s", 30000)):
+                if g >= lo:
+                    cnt[nm] += 1
+                    break
+        prev_t = t
+        far = last_pick is not None and t - last_pick >= 60000
+        if e["ev"] == "pick":
+            if far:
+                cnt["pick_after_1min_inflight_%d" % min(infl, 2)] += 1
+            if quiet:
+                cnt["quiet_done_then_pick"] += 1
+            infl += 1
+            last_pick, done_since_pick, quiet = t, False, False
+        else:
+            infl -= 1
+            if far:
+                cnt["done_after_1min_inflight_%d" % min(infl, 1)] += 1
+                if done_since_pick:
+                    cnt["done_after_1min_no_pick_since_previous_done"] += 1
+                    quiet = True
+            done_since_pick = True
+    for k, v in cnt.items():
+        ctx.counters["idle." + k] = v
+    return [k for k, v in cnt.items() if v < IDLE_MIN]
+
+
 def stats(ctx, binp, ops):
     out = os.path.join(ctx.build, "c14stats.json")
     drive(ctx, binp, "stats", out, "stats", VERIF_C14_OPS=ops)
@@ -238,7 +330,7 @@ def stats(ctx, binp, ops):
         n = st["n"]
         for ph in ("phase1", "phase2"):
             if "error" in st[ph]:
-                ctx.disagree("C14:pick-not-ready", "stats run n=%d %s: %s" % (n, ph, st[ph]["error"]),
+                ctx.disagree("C14:" + st[ph].get("key", "pick-not-ready"), "stats run n=%d %s: %s" % (n, ph, st[ph]["error"]),
                              case=json.dumps(dict(mode="stats", seed=ctx.seed, ops=ops)), source="stats")
                 return
         p1 = st["phase1"]
@@ -291,9 +383,32 @@ def traced(ctx, binp):
     if not ctx.disagreements and ctx.notes.get("multi_thin"):
         raise core.Infra("vacuous multi-picker histories: too few of %s (counters: %s)" % (
             ctx.notes["multi_thin"], {k: v for k, v in ctx.counters.items() if k.startswith("multi.")}))
+    if not ctx.disagreements and ctx.notes.get("idle_thin"):
+        raise core.Infra("vacuous idle-period histories: too few of %s (counters: %s)" % (
+            ctx.notes["idle_thin"], {k: v for k, v in ctx.counters.items() if k.startswith("idle.")}))
 
 
 def stages(ctx, binp):
+    # the long streak traces are recorded and validated next to the other stages
+    with ThreadPoolExecutor(1) as ex:
+        fut = ex.submit(streak, ctx, binp)
+        try:
+            others(ctx, binp)
+        finally:
+            err = fut.exception()      # waits for it
+    if err is not None:
+        raise err
+
+
+def streak(ctx, binp):
+    # one backend failing every call, completions 1-5 ms apart: unhealthy after a bounded number
+    st = dict(VERIF_C14_STREAK=FAILB + 2000)
+    sp = os.path.join(ctx.build, "streak.ndjson")
+    drive(ctx, binp, "streak", sp, "streak", **st)
+    validate(ctx, sp, "trace-streak", "streak", st)
+
+
+def others(ctx, binp):
     if ctx.quick:
         seq, conc, ops = dict(VERIF_C14_TRACES=300, VERIF_C14_OPS=60), dict(VERIF_C14_TRACES=24, VERIF_C14_OPS=300), 20000
     else:
@@ -302,6 +417,13 @@ def stages(ctx, binp):
     drive(ctx, binp, "seq", tp, "seq", **seq)
     ctx.samples += [json.loads(x) for x in open(tp).read().splitlines()[1:4]]
     validate(ctx, tp, "trace-seq", "seq", seq)
+    # idle periods: 30 s, 1 min, 61 s, 5 min without a pick while 0, 1 or 2 calls are in flight, completions, picks again
+    idl = dict(VERIF_C14_PAIRS=(0 if ctx.quick else 1))
+    ip = os.path.join(ctx.build, "idle.ndjson")
+    drive(ctx, binp, "idle", ip, "idle", **idl)
+    ctx.samples += [json.loads(x) for x in open(ip).read().splitlines()[0:3]]
+    validate(ctx, ip, "trace-idle", "idle", idl)
+    ctx.notes["idle_thin"] = idle_guard(ctx, ip)
     # several pickers alive at once, all built by the one registered builder
     mu = dict(VERIF_C14_TRACES=(160 if ctx.quick else 1500), VERIF_C14_OPS=(100 if ctx.quick else 140))
     mp = os.path.join(ctx.build, "multi.ndjson")
@@ -312,11 +434,6 @@ def stages(ctx, binp):
     cp = os.path.join(ctx.build, "conc.ndjson")
     drive(ctx, binp, "conc", cp, "conc", **conc)
     validate(ctx, cp, "trace-conc", "conc", conc)
-    # one backend failing every call, completions 1-5 ms apart: unhealthy after a bounded number
-    st = dict(VERIF_C14_STREAK=FAILB + 2000)
-    sp = os.path.join(ctx.build, "streak.ndjson")
-    drive(ctx, binp, "streak", sp, "streak", **st)
-    validate(ctx, sp, "trace-streak", "streak", st)
     # two completions of one connection applied out of the order of the times they read
     ro = dict(VERIF_C14_TRACES=(150 if ctx.quick else 1500))
     rp = os.path.join(ctx.build, "reorder.ndjson")
